@@ -1,8 +1,8 @@
 package store
 
 import (
-	"errors"
 	"context"
+	"errors"
 	"fmt"
 	"strings"
 
